@@ -6,7 +6,7 @@
 From Coq Require Import List ZArith Lia Bool Arith.
 Import ListNotations.
 Require Import Vault Row Table Grid Tableabs Transform Transformspec Transformproof Transformproof2 Transformproof3
-               Transformproof4 Transformproof5 Transformproof7 Transformproof9 Transformproof10.
+               Transformproof4 Transformproof5 Transformproof7 Transformproof9 Transformproof10 Transformproof11 Transformproof12.
 Open Scope Z_scope.
 
 (* ================= rstrip ================= *)
@@ -36,6 +36,35 @@ Theorem C17_rstrip_keeps_nonempty_values : forall (a : calg) (aggr : bool) (t : 
   gcell x y (abs_t (t_rstrip a aggr t)) = gcell x y (abs_t t).
 Proof. exact rstrip_keeps_model. Qed.
 Print Assumptions C17_rstrip_keeps_nonempty_values.
+
+(* ================= optimize_width (repaired code: F22, F122) ================= *)
+(* it never fails; it removes only rows at the end that are empty per is_empty(aggressive=False) and, at the end of
+   rows, only cells that are empty per is_empty(aggressive=True) (styled empties of a repeated last run may go: "keep
+   repeated styles of empty cells but minimize row width"); no column is added.  optimize_width has no grid meaning as
+   a function: how far a row is shortened depends on the run layout (its last RUN is cut, not its last empty cells);
+   the laws are therefore stated directly between the grids before and after *)
+Theorem C17_optimize_width_total : forall (a : calg) (t : tstate), exists t', t_optimize_width a true t = Some t'.
+Proof. exact optimize_width_total. Qed.
+Print Assumptions C17_optimize_width_total.
+
+Theorem C17_optimize_width_removes_only_trailing_empties : forall (a : calg) (t t' : tstate), WF t ->
+  t_optimize_width a true t = Some t' -> strip_rows_law a false true (abs_t t) (abs_t t') = true /\ WF t'.
+Proof. exact optimize_width_law. Qed.
+Print Assumptions C17_optimize_width_removes_only_trailing_empties.
+
+Theorem C17_optimize_width_keeps_nonempty_values : forall (a : calg) (t t' : tstate) (x y : Z), WF t ->
+  t_optimize_width a true t = Some t' -> cell_empty a true empty_cell = true -> 0 <= x -> 0 <= y ->
+  cell_empty a true (gcell x y (abs_t t)) = false -> gcell x y (abs_t t') = gcell x y (abs_t t).
+Proof. exact optimize_width_keeps_nonempty. Qed.
+Print Assumptions C17_optimize_width_keeps_nonempty_values.
+
+(* the strip law as the checker evaluates it implies, for ANY pair of grids, that every cell that is not empty
+   (aggressive reading) keeps its coordinates — so the correspondence check's law is the property's statement *)
+Theorem C17_strip_law_keeps_nonempty_values : forall (a : calg) (ar ac : bool) (pre post : gridT) (x y : Z),
+  strip_rows_law a ar ac pre post = true -> cell_empty a true empty_cell = true -> 0 <= x -> 0 <= y ->
+  cell_empty a true (gcell x y pre) = false -> gcell x y post = gcell x y pre.
+Proof. exact strip_law_keeps_nonempty. Qed.
+Print Assumptions C17_strip_law_keeps_nonempty_values.
 
 (* ================= transpose ================= *)
 Theorem C17_transpose_refines : forall (t : tstate), WF t ->
@@ -131,6 +160,33 @@ Example C17_span_hypotheses_inhabited : WF ex_table /\ area_alg_ok ex_alg 1 0 2 
   exists st' st'', t_set_span ex_alg 1 0 2 1 false 0 ex_table = Some (st', true) /\
                    t_del_span ex_alg 1 0 st' = Some (st'', true) /\ abs_t st'' = abs_t ex_table.
 Proof. exact ex_inhabited. Qed.
+
+(* ================= CSV (partial) ================= *)
+(* value level, the csv module (writer, Sniffer, reader) abstract: for a matrix whose values are None or in the stable
+   domain (the field written for v reads back as v through _get_python_value and is not blank) and whose text the csv
+   module reads back as written, export then import keeps the number of rows and every value at its coordinates; a None
+   comes back as None (at the end of a row, where import strips blank fields) or as the value of the empty field
+   (inside a row: CSV has no null) *)
+Theorem C17_csv_partial : forall (V S T : Type) (none : V) (field_of : V -> S) (pyval : S -> V) (blank : S -> bool)
+    (csv_write : list (list S) -> T) (csv_read : T -> list (list S)) (csv_ok : list (list S) -> Prop),
+  (forall m, csv_ok m -> csv_read (csv_write m) = m) ->
+  forall m : list (list V),
+  csv_ok (map (map field_of) m) -> blank (field_of none) = true ->
+  (forall r v, In r m -> In v r -> v = none \/ stable V S field_of pyval blank v) ->
+  length (csv_import V S T pyval blank csv_read (csv_export V S T field_of csv_write m)) = length m /\
+  forall x y, let v := vread V none m x y in
+              let v' := vread V none (csv_import V S T pyval blank csv_read (csv_export V S T field_of csv_write m)) x y in
+              (v <> none -> v' = v) /\ (v = none -> v' = none \/ v' = pyval (field_of none)).
+Proof. exact csv_roundtrip_values. Qed.
+Print Assumptions C17_csv_partial.
+(* what is missing for a full CSV statement: the csv module itself (quoting dialect, Sniffer) and _get_python_value's
+   codec chain (int / float / Date / DateTime / Duration / Boolean decoders, C18's business) are not modelled; the
+   connection from the value matrix to the table (iter_values = the padded rows, import = append_row of each line) is
+   C01's read and step theorems *)
+Definition C17_csv_full : Prop :=
+  forall (V S T : Type) (none : V) (field_of : V -> S) (pyval : S -> V) (blank : S -> bool)
+    (csv_write : list (list S) -> T) (csv_read : T -> list (list S)) (m : list (list V)),
+  csv_import V S T pyval blank csv_read (csv_export V S T field_of csv_write m) = m.
 
 (* ================= refuted on the model of the pinned code ================= *)
 (* F21: the pinned transpose raises on ragged rows (the repaired one gives the transposed closure) *)
